@@ -39,4 +39,37 @@ theorem params_eq :
       = some (Src.C12.conv_ratio, Src.C12.conv_taper) := by
   decide
 
+/-! ### `_writemetadata_lf`: the header of one shank's LF file, as the source assigns it
+
+The translated source is the sequence of assignments to `meta_shank` in one iteration of the loop over shanks (the integers
+it reads — the length of that shank's channel list, the size of that shank's LF file, `self.fs_lf`, the shank number — are
+parameters).  `applyEv` gives each assignment its meaning on the model's `Lfp.Meta`; folding the generated sequence over
+the original header gives exactly `Lfp.writeMetaLf` — the function `lf_meta` / `lf_file_opens` are about. -/
+
+def applyEv (chns : List Nat) (m : Lfp.Meta) : String × List Int → Lfp.Meta
+  | ("acq0", [v]) => { m with acq := (v.toNat, m.acq.2.1, m.acq.2.2) }
+  | ("acq1", [v]) => { m with acq := (m.acq.1, v.toNat, m.acq.2.2) }
+  | ("sns0", [v]) => { m with sns := (v.toNat, m.sns.2.1, m.sns.2.2) }
+  | ("sns1", [v]) => { m with sns := (m.sns.1, v.toNat, m.sns.2.2) }
+  | ("size", [v]) => { m with fileSizeBytes := v.toNat }
+  | ("rate", [v]) => { m with sampRate := (v.toNat, 1) }
+  | ("subset_orig", []) => { m with subsetOrig := some chns }
+  | ("subset_to", [v]) => { m with subset := some (0, v.toNat) }
+  | ("nsaved", [v]) => { m with nSavedChans := v.toNat }
+  | ("not_original", []) => { m with originalMeta := false }
+  | ("shank", [v]) => { m with shank := some v.toNat }
+  | _ => m
+
+theorem lf_meta_np24_eq (m : Lfp.Meta) (chns : List Nat) (size sh : Nat) :
+    (Src.C12.lf_meta_np24 chns.length size CONV_FS_LF sh).foldl (applyEv chns) m = Lfp.writeMetaLf .np24 m chns size sh := by
+  unfold Src.C12.lf_meta_np24 Lfp.writeMetaLf
+  have h : ((chns.length : Int) - 1).toNat = chns.length - 1 := by omega
+  simp [applyEv, h]
+
+theorem lf_meta_np21_eq (m : Lfp.Meta) (chns : List Nat) (size sh : Nat) :
+    (Src.C12.lf_meta_np21 chns.length size CONV_FS_LF sh).foldl (applyEv chns) m = Lfp.writeMetaLf .np21 m chns size sh := by
+  unfold Src.C12.lf_meta_np21 Lfp.writeMetaLf
+  have h : ((chns.length : Int) - 1).toNat = chns.length - 1 := by omega
+  simp [applyEv, h]
+
 end IblVerif.Tie.C12
